@@ -255,7 +255,7 @@ class Tables(object):
         'iadd_table': dict(t=_t, t2=_t),
         'iadd_none': dict(t=_t, form=st.sampled_from(['none', 'zero'])),
         'iop_cols': dict(t=_t, cols=st.lists(_ci, min_size=1, max_size=3), form=st.sampled_from(['isub_str', 'isub_list', 'iand_list', 'iand_extra', 'iand_str'])),
-        'ior': dict(t=_t, col=_ci, new=st.booleans(), mode=st.sampled_from(['fit', 'scalar', 'len1', 'misfit']), vals=_vals, k=st.integers(0, 9), allow_raw=st.just(False)),
+        'ior': dict(t=_t, col=_ci, new=st.booleans(), mode=st.sampled_from(['fit', 'scalar', 'len1', 'misfit']), vals=_vals, k=st.integers(0, 9), allow_raw=st.just(True)),
         # ---- integer-list selection, deletion of a column that is not the last one, integer-list selection again (on one table)
         'reselect': dict(t=_t, idx=st.lists(st.integers(-30, 30), min_size=1, max_size=5), col=_ci, how=st.sampled_from(['item', 'attr']),
                          idx2=st.lists(st.integers(-30, 30), min_size=1, max_size=5), form=st.sampled_from(['list', 'list', 'array'])),
